@@ -7,3 +7,4 @@
 pub mod rng;
 pub mod proto;
 pub mod shell;
+pub mod prog;
